@@ -651,7 +651,7 @@ pub fn gen_case(t: &mut Tape, full_templates: bool) -> Case {
     if cli && column {
         line_number = true; // the command line turns -n on with --column
     }
-    let cfg = SCfg { term, invert, before, after, passthru, line_number, multi_line: multiline, bom_sniffing: false, ..SCfg::default() };
+    let cfg = SCfg { term, invert, before, after, passthru, line_number, multi_line: multiline, bom_sniffing: false, warm: gen::gen_warm(t, term), ..SCfg::default() };
     let strat = if t.chance(1, 2) {
         Strat::Slice
     } else {
@@ -1046,6 +1046,13 @@ fn run_printer(case: &Case, matcher: &RegexMatcher) -> Result<Vec<u8>, String> {
             .column(case.column)
             .per_match_one_line(true)
             .build(NoColor::new(vec![]));
+        // an earlier file searched with the same searcher and printer (ripgrep reuses both):
+        // what it leaves behind must not leak into this file's output
+        let mut skip = 0;
+        if let Some(w) = &case.cfg.warm {
+            let _ = searcher.search_slice(matcher, &w.0, printer.sink(matcher));
+            skip = printer.get_mut().get_ref().len();
+        }
         let res = match &case.strat {
             Strat::Slice => searcher.search_slice(matcher, &case.input.0, printer.sink(matcher)),
             Strat::Reader { chunks, .. } | Strat::HeapLimit { chunks, .. } => {
@@ -1054,7 +1061,7 @@ fn run_printer(case: &Case, matcher: &RegexMatcher) -> Result<Vec<u8>, String> {
             }
             _ => searcher.search_slice(matcher, &case.input.0, printer.sink(matcher)),
         };
-        res.map(|_| printer.into_inner().into_inner()).map_err(|e| format!("search failed: {e}"))
+        res.map(|_| printer.into_inner().into_inner()[skip..].to_vec()).map_err(|e| format!("search failed: {e}"))
     }));
     match r {
         Ok(x) => x,
@@ -1370,6 +1377,7 @@ fn check_inner(case: &Case) -> Verdict {
     info.class_if(case.only_matching && replaced_lines > 0, "only_matching");
     info.class_if(case.column && replaced_lines > 0, "column");
     info.class_if(ml_path && replaced_lines > 0, "multi_line_path");
+    info.class_if(case.cfg.warm.is_some(), "searcher_and_printer_reused_after_another_input");
     info.class_if(case.pat.multiline && !ml_path, "multi_line_flag_but_line_path");
     info.class_if(crlf && replaced_lines > 0, "crlf");
     info.class_if(lone_lf_replaced, "crlf_lone_lf_line_replaced");
